@@ -1,5 +1,5 @@
 """C15 — EnumProperty returns the declared value for (variant, key, type), else None."""
-from vlib.defs import Item, Variant, Field, EM, props, DISABLED, ser
+from vlib.defs import aci, EM, Item, Variant, Field, EM, props, DISABLED, ser
 from vlib.run import Corpus
 from vlib import structs as T
 from vlib import strings as S
@@ -62,11 +62,26 @@ def build_corpus(tier, rng):
                 ms.append(DISABLED)
             if rng.random() < 0.3:
                 ms.insert(rng.randint(0, len(ms)), ser("s%d" % i))
+            # attributes of OTHER derives on the same variant do not change the lookup (keys stay exact whatever `ascii_case_insensitive` says)
+            if rng.random() < 0.25:
+                ms.insert(rng.randint(0, len(ms)), aci(rng.random() < 0.7, explicit=rng.random() < 0.5))
             v.metas = ms
             if len(ms) > 1 and rng.random() < 0.6:
                 v.groups = [1] * (len(ms) - 1)
             vs.append(v)
-        items.append(("random", Item("E", vs)))
+        emetas = []
+        if rng.random() < 0.3:
+            emetas.append(EM("aci"))
+        if rng.random() < 0.3:
+            emetas.append(EM("sall", rng.choice(["snake_case", "UPPERCASE"])))
+        if rng.random() < 0.2:
+            emetas.append(EM("prefix", "p/"))
+        items.append(("random", Item("E", vs, metas=emetas)))
+    # case-twin keys on one variant, under case-insensitive flags
+    items.append(("case-twins", Item("E", [
+        Variant("Metre", "unit", [], [props([("si", ("s", "m")), ("SI", ("s", "metre")), ("Si", ("i", 1))]), aci(True, explicit=False)]),
+        Variant("Second", "unit", [], [props([("si", ("s", "s")), ("ok", ("b", True))])]),
+        Variant("Kelvin", "tuple", [Field("u8")], [props([("OK", ("b", False)), ("ok", ("i", 3))])])], metas=[EM("aci")])))
     for fam, it in items:
         k = c.add_def(it, family=fam, derives=["EnumProperty"])
         keys = set()
